@@ -22,6 +22,11 @@ def run(F, X, rep):
     R.t3_timeout_arm(C, rep, "C11-T3")
     R.t4_not_before(C, rep, "C11-T4")
     R.t6_timer_armed_once(C, rep, "C11-T6")
+    # the clock starts after the lifecycle's first RPC (the stored-state lookup): that lookup must not queue behind the
+    # long-running RPCs of other payments (no connection / semaphore / lock shared across hashes: C14-L2)
+    import rules_hh as H
+    if H.need_hh(C, rep, "C11-T7"):
+        H.l2_no_shared_blocking_state(C, rep, "C11-T7")
     # T5: the configured value reaches params.mpp_timeout (and is not crossed with the payment timeout)
     import p_c19
     mb = p_c19.main_body(F)
